@@ -92,10 +92,15 @@ def enabled(state, maxhops=3):
                 n = dict(circs)
                 n[c] = Circ('EXTENDED', cur.hops + 1)
                 out.append(('C%d-EXTENDED' % c, 'CIRC', circ_line(c, 'EXTENDED', cur.hops + 1), (n, strms)))
-            if cur.state == 'EXTENDED' and cur.hops == maxhops:
+            if cur.state in ('EXTENDED', 'GUARD_WAIT') and cur.hops == maxhops:
                 n = dict(circs)
                 n[c] = Circ('BUILT', maxhops)
                 out.append(('C%d-BUILT' % c, 'CIRC', circ_line(c, 'BUILT', maxhops), (n, strms)))
+            if c == 2 and cur.state == 'EXTENDED' and cur.hops == maxhops:
+                # all hops done, Tor waits to learn whether a better guard is usable (control-spec: GUARD_WAIT)
+                n = dict(circs)
+                n[c] = Circ('GUARD_WAIT', maxhops)
+                out.append(('C%d-GUARD_WAIT' % c, 'CIRC', circ_line(c, 'GUARD_WAIT', maxhops), (n, strms)))
             if cur.state == 'BUILT' and cur.purp == 0:
                 # a built circuit is cannibalised for another purpose; Tor reports it BUILT again with the new PURPOSE
                 n = dict(circs)
@@ -135,6 +140,13 @@ def enabled(state, maxhops=3):
                     n = dict(strms)
                     n[s] = Strm('SENTCONNECT', c, cur.remapped)
                     out.append(('S%d-SENTCONNECT-%d' % (s, c), 'STREAM', stream_line(s, 'SENTCONNECT', c, tgt(s, cur.remapped)), (circs, n)))
+        if cur.state == 'NEWRESOLVE' and on == 0:
+            # a resolve request is sent over a circuit: SENTRESOLVE names it
+            for c in CIDS:
+                if c in circs and circs[c].state == 'BUILT':
+                    n = dict(strms)
+                    n[s] = Strm('SENTRESOLVE', c, cur.remapped)
+                    out.append(('S%d-SENTRESOLVE-%d' % (s, c), 'STREAM', stream_line(s, 'SENTRESOLVE', c, '%s:0' % TARGET[s][0]), (circs, n)))
         if cur.state in ('NEW', 'SENTCONNECT') and int(cur.remapped) < MAX_REMAPS[s] and on >= 0:
             nr = int(cur.remapped) + 1
             out.append(('S%d-REMAP' % s, 'STREAM', stream_line(s, 'REMAP', on, tgt(s, nr), 'SOURCE=CACHE' if nr == 1 else 'SOURCE=EXIT'),
